@@ -37,6 +37,7 @@ package dbkit
 //@ func AtomicWriteFile
 //@   tags C05
 //@   uses fs
+//@   modifies ghost.fsVol, ghost.fsSynced, ghost.fsEntryDurable, ghost.fsName
 //@   let OLD = old(ghost.fsVol)[path]
 //@   let NEW = spec.contentOf(r)
 //@   callinv [C05 name=never-torn] ghost.fsVol[path] == OLD || (ghost.fsVol[path] == NEW && ghost.fsSynced[path])
